@@ -371,10 +371,16 @@ class Sym:
                 if all(p is not None for p in ps):
                     if all(p == ps[0] for p in ps):
                         return ps[0]
+                    rec = [p for p in ps if any("loopvar" in sname for sname in p.syms())]
+                    if rec:
+                        return Poly.sym("loop(%s)" % "|".join(sorted(str(p) for p in ps if p not in rec)))
                     return Poly.sym("phi(%s)" % "|".join(sorted(str(p) for p in ps)))
             return None
         if k in ("field", "param", "index", "try", "downcast"):
             return Poly.sym(self.name(t))
+        if k == "loopval":
+            inner = self.poly(t[2][0]) if t[2] else None
+            return Poly.sym("loop(%s)" % (inner if inner is not None else "?"))
         return None
 
     def var_defs(self, l):
@@ -384,10 +390,26 @@ class Sym:
             return None
         defs = tm.defs.whole[l]
         if self.path_blocks is not None:
+            order = self.path_order
             on = [d for d in defs if d[0] in self.path_blocks]
+            # definitions inside a loop whose header the path crosses (the path itself skips the
+            # loop body): after that header the local holds a loop-carried value
+            loop_hdr_pos = -1
+            for d in defs:
+                if d[0] in self.path_blocks:
+                    continue
+                for h in self.loops_containing(d[0]):
+                    if h in self.path_blocks:
+                        loop_hdr_pos = max(loop_hdr_pos, order[h])
+            if loop_hdr_pos >= 0:
+                later = [d for d in on if order[d[0]] > loop_hdr_pos]
+                if not later:
+                    init = [d for d in on if order[d[0]] <= loop_hdr_pos]
+                    init.sort(key=lambda d: (order.get(d[0], -1), d[1] if d[1] != "t" else 1 << 30))
+                    return [("loopval", l, tuple(self._def_term(d) for d in init[-1:]))]
+                on = later
             if on:
                 # the definition that reaches the end of the path: the last one in path order
-                order = self.path_order
                 on.sort(key=lambda d: (order.get(d[0], -1), d[1] if d[1] != "t" else 1 << 30))
                 defs = [on[-1]]
         for (bi, si, x) in defs:
@@ -396,6 +418,19 @@ class Sym:
             else:
                 out.append(tm.rvalue(x))
         return out
+
+    def _def_term(self, d):
+        tm = self.an.terms
+        bi, si, x = d
+        return tm.call_term(x, bi) if si == "t" else tm.rvalue(x)
+
+    def loops_containing(self, bb):
+        if not hasattr(self, "_loops"):
+            self._loops = []
+            body = self.an.body
+            for (tail, head) in body.back_edges():
+                self._loops.append((head, body.natural_loop(tail, head)))
+        return [h for h, blocks in self._loops if bb in blocks]
 
     def set_path(self, blocks):
         """make multi-definition locals resolve to the definition on this path (None = flow-insensitive)"""
@@ -472,6 +507,8 @@ class Sym:
             return "%s[%s]" % (self.name(t[1]), self.arg_name(t[2]))
         if k == "var":
             return "var"
+        if k == "mut":
+            return self.mut_name(t)
         if k == "aggr" and t[1].startswith("closure:"):
             ci = closure_info(self.prog, self.an, t)
             if ci:
@@ -494,6 +531,25 @@ class Sym:
         if r is not None:
             return self.region_name(r)
         return show(t)
+
+    def mut_name(self, t):
+        """canonical name of a local that is initialised and then mutated through &mut views:
+        Vec::new() + pushes -> vec[push <values>]; otherwise mut(<init>)"""
+        l, init = t[1], t[2]
+        init_s = strip(init)
+        if init_s[0] == "call" and short(init_s[1]) in ("Vec::<T>::new", "Vec::<T>::with_capacity"):
+            pushed = []
+            tm = self.an.terms
+            for bb, term in self.an.body.calls():
+                cs = short(term.get("callee") or "")
+                if cs in ("Vec::<T, A>::push", "Vec::<T, A>::extend_from_slice", "Vec::<T, A>::append", "Extend::extend"):
+                    a0 = tm.operand(term["args"][0])
+                    while a0[0] in ("ref", "deref"):
+                        a0 = a0[1]
+                    if a0[0] == "mut" and a0[1] == l:
+                        pushed.append("%s %s" % (cs.split("::")[-1], self.arg_name(tm.operand(term["args"][1]))))
+            return "vec[%s]" % "; ".join(sorted(pushed))
+        return "mut(%s)" % self.name(init)
 
     def arg_name(self, a):
         r = self.ev.region(a)
